@@ -26,32 +26,45 @@ Record global := mkGlobal {
   g_writers : list writer (* every statement that may write it (points-to closure) *)
 }.
 
-(* Process-wide lifecycle entry points: they bind / unbind the one SDF device library of the
-   process and are not operations on caller-owned context or key objects. *)
-Definition lifecycle_functions : list string := ["SDF_LoadLibrary"; "SDF_UnloadLibrary"].
+(* Allow-list: the only writes to static-storage objects after load time, each with the guard under which it is
+   compatible with the property.  SDF_LoadLibrary / SDF_UnloadLibrary bind / unbind the one SDF device library of the
+   process; they are not operations on caller-owned context or key objects. *)
+Record allowed_write := mkAllowed { aw_global : string; aw_fn : string; aw_guard : string }.
+Definition sdf_guard : string :=
+  "process-wide lifecycle call: once before / after all SDF use, by contract never concurrent with any SDF_* call".
+Definition allow_list : list allowed_write := [
+  mkAllowed "sdf_method" "SDF_LoadLibrary" sdf_guard; mkAllowed "sdf_method" "SDF_UnloadLibrary" sdf_guard;
+  mkAllowed "sdf_vendor" "SDF_LoadLibrary" sdf_guard; mkAllowed "sdf_vendor" "SDF_UnloadLibrary" sdf_guard ].
+Definition lifecycle_functions : list string := map aw_fn allow_list.
 
-Definition writer_ok (w : writer) : bool := str_in (w_fn w) lifecycle_functions.
-Definition global_ok (g : global) : bool := forallb writer_ok (g_writers g).
+Definition allows (g : string) (fn : string) (a : allowed_write) : bool := String.eqb g (aw_global a) && String.eqb fn (aw_fn a).
+Definition writer_ok (g : global) (w : writer) : bool := existsb (allows (g_name g) (w_fn w)) allow_list.
+Definition global_ok (g : global) : bool := forallb (writer_ok g) (g_writers g).
 Definition global_key (g : global) : string := g_file g ++ ":" ++ g_name g.
 
+(* every statement that may write a static-storage object is an allow-listed (object, function) pair with its guard *)
 Lemma globals_table_sound : forall tbl : list global,
   forallb global_ok tbl = true ->
-  forall g, In g tbl -> forall w, In w (g_writers g) -> In (w_fn w) lifecycle_functions.
+  forall g, In g tbl -> forall w, In w (g_writers g) ->
+  exists a, In a allow_list /\ aw_global a = g_name g /\ aw_fn a = w_fn w.
 Proof.
   intros tbl H g Hg w Hw.
   rewrite forallb_forall in H. specialize (H g Hg). unfold global_ok in H.
-  rewrite forallb_forall in H. specialize (H w Hw). apply str_in_In. exact H.
+  rewrite forallb_forall in H. specialize (H w Hw). unfold writer_ok in H.
+  apply existsb_exists in H. destruct H as [a [Ha Hb]]. unfold allows in Hb.
+  apply andb_true_iff in Hb. destruct Hb as [E1 E2]. apply String.eqb_eq in E1. apply String.eqb_eq in E2.
+  exists a. repeat split; auto.
 Qed.
 
-(* objects no statement may write at all *)
+(* objects outside the allow-list have no writer at all *)
 Lemma globals_never_written : forall tbl : list global,
   forallb global_ok tbl = true ->
   forall g, In g tbl ->
-  (forall w, In w (g_writers g) -> ~ In (w_fn w) lifecycle_functions) -> g_writers g = [].
+  (forall a, In a allow_list -> aw_global a <> g_name g) -> g_writers g = [].
 Proof.
   intros tbl H g Hg Hn. destruct (g_writers g) as [|w ws] eqn:E; [reflexivity|].
-  exfalso. apply (Hn w); [left; reflexivity|].
-  apply (globals_table_sound tbl H g Hg). rewrite E. left. reflexivity.
+  exfalso. destruct (globals_table_sound tbl H g Hg w) as [a [Ha [Hb _]]]; [rewrite E; left; reflexivity|].
+  exact (Hn a Ha Hb).
 Qed.
 
 (* ============================================================================ C19: diagnostics *)
@@ -85,6 +98,30 @@ Proof.
   intros tbl H d Hd Hc Hp. rewrite forallb_forall in H. specialize (H d Hd).
   unfold diag_ok in H. rewrite Hc, Hp in H. cbn in H.
   destruct (d_prov d); cbn in H; congruence.
+Qed.
+
+(* ============================================================================ C19: print-call audit *)
+(* one row per call of an output primitive inside a print / trace / format routine (wave 5) *)
+Inductive len_class := LenNone | LenFits | LenExceeds | LenDynamic.
+Record print_call := mkPrintCall {
+  pc_file : string; pc_fn : string; pc_line : N; pc_callee : string;
+  pc_fmt_literal : bool;      (* the format is a string literal (or the routine is a variadic forwarder) *)
+  pc_nargs_ok : bool;         (* as many arguments as conversion directives *)
+  pc_str_ok : bool;           (* every %s gets a char string, no %n *)
+  pc_len : len_class;         (* format_bytes/_string: constant length vs declared array size *)
+  pc_detail : string
+}.
+Definition print_call_ok (c : print_call) : bool :=
+  pc_fmt_literal c && pc_nargs_ok c && pc_str_ok c && match pc_len c with LenExceeds => false | _ => true end.
+Definition print_call_key (c : print_call) : string := pc_file c ++ ":" ++ pc_fn c ++ ":" ++ pc_callee c.
+
+Lemma print_audit_sound : forall tbl : list print_call,
+  forallb print_call_ok tbl = true ->
+  forall c, In c tbl -> pc_fmt_literal c = true /\ pc_nargs_ok c = true /\ pc_str_ok c = true /\ pc_len c <> LenExceeds.
+Proof.
+  intros tbl H c Hc. rewrite forallb_forall in H. specialize (H c Hc). unfold print_call_ok in H.
+  repeat (apply andb_true_iff in H; destruct H as [H ?]). repeat split; auto.
+  intro E. rewrite E in *. discriminate.
 Qed.
 
 (* ============================================================================ C18: entropy sites *)
